@@ -59,7 +59,7 @@ func TestGenCase(t *testing.T) {
 			}
 		}
 	}
-	for _, r := range []string{"show-vs-var", "using-vs-macro", "for-import-vs-qualified", "dead-code-removed", "render-repeated", "render-vs-alone", "md-render-vs-convert", "extends-vs-expanded", "import-vs-local", "default-missing", "default-present"} {
+	for _, r := range []string{"show-vs-var", "local-rename", "using-vs-macro", "for-import-vs-qualified", "dead-code-removed", "render-repeated", "render-vs-alone", "md-render-vs-convert", "extends-vs-expanded", "import-vs-local", "default-missing", "default-present"} {
 		if rels[r] == 0 {
 			t.Errorf("relation %s never generated", r)
 		}
